@@ -759,7 +759,7 @@ pub fn reference_or_note(case: &Case, acc: &mut Acc) -> Option<Reference> {
 fn specs_for(tier: Tier) -> Vec<Spec> {
     match tier {
         Tier::Quick => {
-            let mut v = vec![g(2, 2, 3, 3), Spec::Files { k: 0, cap: 0 }];
+            let mut v = vec![g(2, 2, 3, 3), g(2, 0, 3, 3), g(2, 1, 3, 3), g(1, 3, 3, 2), Spec::Files { k: 1, cap: 250 }];
             v.extend(all_seed_nbh(1, 1, 100_000));
             v
         }
